@@ -114,7 +114,7 @@ func (header *Header) Validate(ctx context.Context, opts ...ValidationOption) er
 			return fmt.Errorf("header content is invalid: %w", err)
 		}
 	}
-	return nil
+	return validateExtensions(ctx, header.Extensions)
 }
 
 // UnmarshalJSON sets Headers to a copy of data.
